@@ -66,6 +66,36 @@ def placed_report_during_query(chk, binp):
             stack.close()
 
 
+def placed_swap_during_query(chk, binp):
+    """a schedule: while a query is reading the flags, the redirector reports ready and the key latch is reset (H3 inject point, at
+    the query's first read of the flags): the error text names the subsystems not ready at ONE instant of that
+    history - the redirector (before), none (in between) or the key latch (after) - never both"""
+    stack = e2e.Stack(binp)
+    try:
+        for f in ("k", "l"):
+            stack.ctl(f"prov call ready {f}")
+        before = stack.ctl("prov msg getstate")
+        now = int(stack.ctl("now"))
+        stack.ctl("pqhook2 1 r k")
+        ans = query(stack, now)
+        time.sleep(0.3)
+        stack.ctl("khook off")
+        after = stack.ctl("prov msg getstate")
+        chk.case(nontrivial_key=("placed-swap", before, after, str(ans)))
+        chk.count("placed_swap_during_query")
+        d = {"schedule": "flags r missing; while the query's first read of the flags is handled, 'redirector ready' then 'key latch reset' are queued and handled before any further read", "flags_before": before,
+             "flags_after": after, "answer": ans}
+        if ans is None:
+            chk.disagreement("provision-query", d, "an answer", "none")
+            return
+        names = sorted(set(re.findall(r"(ebpfProgramStatus|keyLatchStatus|proxyListenerStatus) - ", ans.get("errorMessage", ""))))
+        if names not in ([], ["ebpfProgramStatus"], ["keyLatchStatus"]):
+            chk.violation("the error text of a query does not name the subsystems not ready at any one instant", d,
+                          expected="redirector only, nothing, or key latch only", observed=names)
+    finally:
+        stack.close()
+
+
 def through_the_key_keeper(chk, binp):
     """the "secure channel latched" input of the query comes from the real key keeper: a channel the host reports disabled (in any
     letter case), and a key whose attestation failed, are not "latched" - a query then is not answered finished while the
@@ -517,6 +547,7 @@ def run(chk):
         finally:
             stack.close()
     placed_report_during_query(chk, binp)
+    placed_swap_during_query(chk, binp)
     tag_replaced_by_rename_only(chk, binp)
     # the same with the process's temp directory on another filesystem than its folders (the atomic replacement must not depend on
     # where the temp directory happens to be)
